@@ -121,7 +121,7 @@ package parsers
 //@ func (c *MustacheParser) Clear
 //@   requires c != nil
 //@   ensures[C03,C05] len(c.originalTokens) == 0 && len(c.initialTokens) == 0 && len(c.resultTokens) == 0 && len(c.variableNames) == 0 && c.currentTokenIndex == 0 && c.template == ""
-//@   ensures[C03] fresh(c.originalTokens) && fresh(c.initialTokens) && fresh(c.resultTokens) && mFresh(c)
+//@   ensures[C03] fresh(c.originalTokens) && fresh(c.initialTokens) && fresh(c.resultTokens) && fresh(c.variableNames) && mFresh(c)
 //@   assigns c.template, c.originalTokens, c.initialTokens, c.resultTokens, c.currentTokenIndex, c.variableNames
 //@   nopanic
 //
@@ -183,18 +183,22 @@ package parsers
 //@ spec mOrder(c *MustacheParser, n int) bool = forall j int, k int :: 0 <= j && j < k && k < len(c.variableNames) ==>
 //@         mFirst(seq(c.initialTokens), heapof(MustacheToken, typ), heapof(MustacheToken, value), n, lower(c.variableNames[j])) <
 //@         mFirst(seq(c.initialTokens), heapof(MustacheToken, typ), heapof(MustacheToken, value), n, lower(c.variableNames[k]))
+// no reported name is empty (a tag without a name reports nothing)
+//@ pred mNamesOK(c *MustacheParser) = forall j int :: 0 <= j && j < len(c.variableNames) ==> c.variableNames[j] != ""
 //@ func (c *MustacheParser) lookupVariables
 //@   requires c != nil && (forall i int :: 0 <= i && i < len(c.initialTokens) ==> c.initialTokens[i] != nil)
+//@   requires mNamesOK(c)
 //@   ensures[C18] len(c.originalTokens) != 0 ==> mSound(c, len(c.initialTokens))
 //@   ensures[C18] len(c.originalTokens) != 0 ==> mComplete(c, len(c.initialTokens))
 //@   ensures[C18] len(c.originalTokens) != 0 ==> mOrder(c, len(c.initialTokens))
 //@   ensures[C18] c.initialTokens == old(c.initialTokens)
+//@   ensures[C18] mNamesOK(c)
 //@   assigns c.variableNames, c.variableNames[*]
 //@   nopanic
 //@   loop 0
 //@     invariant -1 <= rangeindex && rangeindex < len(c.initialTokens)
 //@     invariant c.initialTokens == old(c.initialTokens) && elems(c.initialTokens) == old(elems(c.initialTokens))
-//@     invariant fresh(c.variableNames)
+//@     invariant fresh(c.variableNames) && mNamesOK(c)
 //@     invariant mSound(c, rangeindex + 1)
 //@     invariant mComplete(c, rangeindex + 1)
 //@     invariant mOrder(c, rangeindex + 1)
@@ -212,7 +216,10 @@ package parsers
 //@ func (c *MustacheParser) performParsing
 //@   requires mFresh(c) && c.currentTokenIndex == 0 && len(c.initialTokens) == 0 &&
 //@       (forall i int :: 0 <= i && i < len(c.originalTokens) ==> c.originalTokens[i] != nil && allocated(c.originalTokens[i]))
+//@   requires mNamesOK(c)
 //@   ensures[C03,C10] result == nil ==> c.currentTokenIndex == len(c.initialTokens)
+//@   ensures[C18] mNamesOK(c)
+//@   assigns c.currentTokenIndex, c.initialTokens, c.initialTokens[*], c.resultTokens, c.resultTokens[*], c.variableNames, c.variableNames[*]
 //@   nopanic
 //
 // "text verbatim": what is tokenized is the template with blanks, tabs and line breaks - nothing else - removed at both ends
@@ -229,8 +236,38 @@ package parsers
 //@ func (c *MustacheParser) ParseString
 //@   tags C03
 //@   requires c != nil && c.tokenizer != nil
+//@   ensures[C18] mNamesOK(c)
+//@   assigns c.template, c.originalTokens, c.initialTokens, c.initialTokens[*], c.resultTokens, c.resultTokens[*], c.currentTokenIndex, c.variableNames, c.variableNames[*],
+//@       any(tokenizers.AbstractTokenizer).Scanner, any(tokenizers.AbstractTokenizer).ReaderVersion, any(tokenizers.AbstractTokenizer).NextTokenValue, any(tokenizers.AbstractTokenizer).LastTokenType,
+//@       any(tokenizers.AbstractTokenizer).skipWhitespaces, any(tokenizers.AbstractTokenizer).skipComments, any(tokenizers.AbstractTokenizer).skipEof,
+//@       any(tokenizers.AbstractTokenizer).decodeStrings, any(tokenizers.MustacheTokenizer).special, any(tokenizers.MustacheTokenizer).lastVersion, any(tokenizers.MustacheTokenizer).tagStart, any(tokenizers.MustacheTokenizer).comment
 //@   nopanic
 //@ func (c *MustacheParser) SetTemplate
 //@   tags C03
 //@   requires c != nil && c.tokenizer != nil
+//@   ensures[C18] mNamesOK(c)
+//@   assigns c.template, c.originalTokens, c.initialTokens, c.initialTokens[*], c.resultTokens, c.resultTokens[*], c.currentTokenIndex, c.variableNames, c.variableNames[*],
+//@       any(tokenizers.AbstractTokenizer).Scanner, any(tokenizers.AbstractTokenizer).ReaderVersion, any(tokenizers.AbstractTokenizer).NextTokenValue, any(tokenizers.AbstractTokenizer).LastTokenType,
+//@       any(tokenizers.AbstractTokenizer).skipWhitespaces, any(tokenizers.AbstractTokenizer).skipComments, any(tokenizers.AbstractTokenizer).skipEof,
+//@       any(tokenizers.AbstractTokenizer).decodeStrings, any(tokenizers.MustacheTokenizer).special, any(tokenizers.MustacheTokenizer).lastVersion, any(tokenizers.MustacheTokenizer).tagStart, any(tokenizers.MustacheTokenizer).comment
+//@   nopanic
+// the same for a token list handed over by the caller
+//@ func (c *MustacheParser) composeMustache
+//@   requires forall i int :: 0 <= i && i < len(tokens) ==> tokens[i] != nil
+//@   assigns nothing
+//@   nopanic
+//@   loop 0
+//@     invariant -1 <= rangeindex && rangeindex < len(tokens)
+//@     decreases len(tokens) - rangeindex
+//@ func (c *MustacheParser) ParseTokens
+//@   tags C03
+//@   requires c != nil && (forall i int :: 0 <= i && i < len(tokens) ==> tokens[i] != nil && allocated(tokens[i]))
+//@   ensures[C18] mNamesOK(c)
+//@   assigns c.template, c.originalTokens, c.initialTokens, c.initialTokens[*], c.resultTokens, c.resultTokens[*], c.currentTokenIndex, c.variableNames, c.variableNames[*]
+//@   nopanic
+//@ func (c *MustacheParser) SetOriginalTokens
+//@   tags C03
+//@   requires c != nil && (forall i int :: 0 <= i && i < len(value) ==> value[i] != nil && allocated(value[i]))
+//@   ensures[C18] mNamesOK(c)
+//@   assigns c.template, c.originalTokens, c.initialTokens, c.initialTokens[*], c.resultTokens, c.resultTokens[*], c.currentTokenIndex, c.variableNames, c.variableNames[*]
 //@   nopanic
